@@ -74,7 +74,22 @@ def make_array(desc: Dict[str, Any]) -> np.ndarray:
         else:
             a = (v - (n * 3 if dt.kind == "i" else 0)).astype(dt)
         chans.append(a.reshape(shape))
-    return np.stack(chans, 0)
+    out = np.stack(chans, 0)
+    if desc.get("extremes"):
+        # representable but unusual voxel values: limits of the type, negative zero, a denormal, non-finite values
+        flat = out.reshape(-1)
+        if dt.kind == "f":
+            fi = np.finfo(dt)
+            vals = [-0.0, fi.max, -fi.max, fi.tiny / 4, 1.0 + fi.eps]
+            if desc.get("nonfinite"):
+                vals += [np.nan, np.inf, -np.inf]
+        else:
+            ii = np.iinfo(dt)
+            vals = [ii.min, ii.max, 0]
+        pos = np.random.RandomState((desc["seed"] + 17) % (2**31)).permutation(flat.size)[: len(vals)]
+        for p_, v in zip(pos, vals):
+            flat[p_] = v
+    return out
 
 
 def make_flow(desc: Dict[str, Any], grid: Grid) -> torch.Tensor:
@@ -109,7 +124,7 @@ def layout_tensor(t: torch.Tensor, layout: str) -> torch.Tensor:
         out = base[1:]
     else:
         out = t.clone()
-    assert torch.equal(out, t)
+    assert np.array_equal(out.numpy(), t.numpy(), equal_nan=t.is_floating_point())
     return out
 
 
@@ -352,7 +367,7 @@ class IoWorld:
         if rec.kind == "flow":
             ok = np.allclose(arr.astype(np.float64), want.astype(np.float64), rtol=1e-5, atol=1e-6)
         else:
-            ok = np.array_equal(arr, want.astype(arr.dtype))
+            ok = np.array_equal(arr, want.astype(arr.dtype), equal_nan=arr.dtype.kind == "f")
         if not ok:
             bad = int((arr != want.astype(arr.dtype)).sum())
             out.append(self.viol("values-differ", op, name, rec, {"n_diff": bad, "n": int(arr.size)}, pair))
@@ -763,14 +778,17 @@ class _Gen:
         else:
             C = rng.weighted([(1, 3), (2, 2), (3, 2)])
             dtype = rng.choice(DTYPES)
-        size = [rng.randint(3, 8) for _ in range(D)]
+        size = [rng.weighted([(1, 1), (2, 1.5)] + [(n, 1.5) for n in range(3, 9)]) for _ in range(D)]
         gd = gen.grid_desc(rng, D, 3, 8, align_corners=True, oriented=True)
         if rng.chance(0.2):
             # axis permutation / exact quarter turns
             import math
             gd["angles"] = [rng.choice([0.0, math.pi / 2, -math.pi / 2, math.pi]) for _ in gd["angles"]]
         gd["spacing"] = [rng.choice([0.5, 0.8, 1.0, 1.25, 2.0, 3.3]) for _ in range(D)]
-        return {"D": D, "C": C, "dtype": dtype, "size": size, "grid": gd, "seed": rng.subseed(), "amp": rng.round(0.2, 2.0, 2)}
+        if kind == "flow":
+            size = [max(2, n) for n in size]  # normalised (cube) vector components are undefined along an axis with one sample
+        return {"D": D, "C": C, "dtype": dtype, "size": size, "grid": gd, "seed": rng.subseed(), "amp": rng.round(0.2, 2.0, 2),
+                "extremes": bool(kind != "flow" and rng.chance(0.3))}
 
     def pick_name(self, rng: Rng, collide: bool) -> str:
         existing = sorted(os.listdir(self.root))
@@ -821,6 +839,12 @@ class _Gen:
             if caps.get("oriented") is False:
                 desc["grid"]["angles"] = [0.0] * len(desc["grid"]["angles"])
                 desc["grid"]["flips"] = [False] * len(desc["grid"]["flips"])
+            suf_ = suffix_of(name)
+            if (suf_ == ".vtk" or (suf_ in NIFTI_FAMILY and desc["C"] > 1)) and desc["size"][-1] == 1:
+                # ITK's convention for these formats drops a trailing dimension of size one (of vector images): not representable
+                desc["size"][-1] = 2
+            # ITK's NIfTI reader replaces non-finite values by zero: those go to the other formats only
+            desc["nonfinite"] = bool(desc.get("extremes") and suf_ not in NIFTI_FAMILY)
             op = {"op": kind, "name": name, "kind": pk, "desc": desc, "compress": bool(rng.chance(0.5))}
             if kind == "dwrite":
                 op["form"] = rng.weighted([("str", 4), ("path", 2), ("uri", 1), ("rel", 1)])
